@@ -1,4 +1,5 @@
 import Ledger.Driver.CoreH
+import Ledger.Driver.HistH
 
 /-! `ldriver_core`: correspondence driver for the Core area (core-only). -/
-def main : IO Unit := Ledger.Driver.runDriver Ledger.Driver.coreHandlers
+def main : IO Unit := Ledger.Driver.runDriver (Ledger.Driver.coreHandlers ++ Ledger.Driver.histHandlers)
